@@ -268,6 +268,9 @@ func spawn(p *Prop, role string, extra []string, out string) *exec.Cmd {
 	return cmd
 }
 
+// partStats: runs per world of the last parent() (evidence: how much each world contributed)
+var partStats []map[string]any
+
 func parent(top *Prop, tier string) int {
 	start := time.Now()
 	parts := top.Parts
@@ -278,8 +281,17 @@ func parent(top *Prop, tier string) int {
 	var results []*shardResult
 	harnessTrouble := false
 	var b Budget
+	partStats = nil
 	for pi, p := range parts {
+		if only := os.Getenv("VERIF_ONLY_PART"); only != "" && only != strconv.Itoa(pi) {
+			continue // (development aid: one world of a property decided in several)
+		}
 		rs, trouble, bb := runPart(top, p, pi, tier, seed)
+		nruns := 0
+		for _, r := range rs {
+			nruns += r.Runs
+		}
+		partStats = append(partStats, map[string]any{"world": p.Worlds, "runs": nruns, "shards": len(rs), "wall_budget_s": bb.Wall.Seconds()})
 		results = append(results, rs...)
 		harnessTrouble = harnessTrouble || trouble
 		b = bb
@@ -697,6 +709,9 @@ func report(p *Prop, tier string, seed uint64, b Budget, results []*shardResult,
 		"worlds":                 p.Worlds,
 		"known_findings_seen":    knownSeen,
 		"exhaustive":             false,
+	}
+	if len(partStats) > 0 {
+		cov["runs_per_world"] = partStats
 	}
 	ev := map[string]any{
 		"property_id": p.ID,
